@@ -307,6 +307,156 @@ class World:
         return out
 
 
+
+# ---------------------------------------------------------------- tie of the REAL registries to Model/Registry.lean
+
+class Recorder:
+    """records, while a scenario runs on the real registry, every `Node.__add__` (in order) and, by comparing the class
+    and instance dicts before / after each operation, every `<a>_to_<b>` attribute that was stored; produces the `reg`
+    request for the Lean model and the real side's answer in the same format"""
+
+    def __init__(self, builtin):
+        from beyond.utils import node as nmod
+        from beyond.frames import center as cmod, orient as omod
+        self.nmod, self.cmod, self.omod = nmod, cmod, omod
+        self.links = []
+        self.centers = {id(cmod.Earth.node): cmod.Earth}
+        rec = self
+        self._add = nmod.Node.__add__
+        self._cinit = cmod.Center.__init__
+
+        def add(a, b):
+            rec.links.append((a, b))
+            return rec._add(a, b)
+
+        def cinit(obj, *args, **kw):
+            rec._cinit(obj, *args, **kw)
+            rec.centers[id(obj.node)] = obj
+        nmod.Node.__add__ = add
+        cmod.Center.__init__ = cinit
+        # objects (identity) per world, in order of appearance; builtin orientations first, in the order of the recorded import history
+        onames, ohist, omethods = builtin
+        live = {n: getattr(omod, n) for n in onames}
+        self.objs = {"orient": [live[n] for n in onames], "center": [cmod.Earth]}
+        self.ops = {"orient": [f"A:c0:{a}:{b}:-" for a, b in omethods] + [f"L:{a}:{b}" for a, b in ohist], "center": []}
+        self.names = {"orient": list(onames), "center": ["Earth"]}
+        self.classes = {"orient": [omod.Orientation], "center": [cmod.Center]}
+        self.snap = {w: self.snapshot(w) for w in ("orient", "center")}
+
+    def close(self):
+        self.nmod.Node.__add__ = self._add
+        self.cmod.Center.__init__ = self._cinit
+
+    def obj_of(self, world, node):
+        return node if world == "orient" else self.centers.get(id(node))
+
+    def node_of(self, world, obj):
+        return obj if world == "orient" else obj.node
+
+    def index(self, world, obj):
+        for i, o in enumerate(self.objs[world]):
+            if o is obj:
+                return i
+        self.objs[world].append(obj)
+        return len(self.objs[world]) - 1
+
+    def name_id(self, world, name):
+        if name not in self.names[world]:
+            self.names[world].append(name)
+        return self.names[world].index(name)
+
+    def class_id(self, world, cls):
+        root = self.classes[world][0]
+        for c in reversed([k for k in cls.__mro__ if issubclass(k, root)]):
+            if c not in self.classes[world]:
+                self.classes[world].append(c)
+        return self.classes[world].index(cls)
+
+    def holders(self, world):
+        for o in self.objs[world]:
+            self.class_id(world, type(o))
+        return [("c", i, c) for i, c in enumerate(self.classes[world])] + [("i", i, o) for i, o in enumerate(self.objs[world])]
+
+    def snapshot(self, world):
+        out = {}
+        for kind, i, h in self.holders(world):
+            for k, v in list(vars(h).items()):
+                if "_to_" in k and callable(v) and not k.startswith("_"):
+                    out[(kind, i, k)] = v
+        return out
+
+    def after_op(self):
+        """turn what happened since the last call into model operations"""
+        links, self.links = self.links, []
+        for a, b in links:
+            world = "orient" if isinstance(a, self.omod.Orientation) else "center"
+            oa, ob = self.obj_of(world, a), self.obj_of(world, b)
+            if oa is None or ob is None:
+                raise RuntimeError("a linked centre node belongs to no recorded Center")
+            self.ops[world].append(f"L:{self.index(world, oa)}:{self.index(world, ob)}")
+        for world in ("orient", "center"):
+            new = self.snapshot(world)
+            for (kind, i, k), v in new.items():
+                if self.snap[world].get((kind, i, k)) is v:
+                    continue
+                a, _, b = k.partition("_to_")
+                if "_to_" in b:
+                    raise RuntimeError(f"ambiguous attribute name {k}")
+                owner = getattr(v, "__self__", None)
+                fn = getattr(v, "__func__", None)
+                if owner is None or fn is None or fn.__name__ != "_to_parent":
+                    o = "-"
+                else:
+                    o = str(self.index(world, owner))
+                self.ops[world].append(f"A:{kind}{i}:{self.name_id(world, a)}:{self.name_id(world, b)}:{o}")
+            self.snap[world] = self.snapshot(world)
+
+    def request_and_reply(self, world):
+        objs = self.objs[world]
+        n = len(objs)
+        nodes = [self.node_of(world, o) for o in objs]
+        for u in nodes:
+            self.name_id(world, u.name)
+        names = [self.names[world].index(u.name) for u in nodes]
+        classes = [self.class_id(world, type(o)) for o in objs]
+        root = self.classes[world][0]
+        mro = ";".join(f"{i}:" + ".".join(str(self.classes[world].index(k)) for k in c.__mro__ if issubclass(k, root)) for i, c in enumerate(self.classes[world]))
+        line = f"reg {n} " + ",".join(map(str, names)) + " " + ",".join(map(str, classes)) + f" {mro} 0 " + " ".join(self.ops[world])
+        idx = {id(x): i for i, x in enumerate(nodes)}
+        nid = {nm: i for i, nm in enumerate(self.names[world])}
+        for u in nodes:
+            for x in u.neighbors:
+                if id(x) not in idx:
+                    return line, "real graph holds a node that was never linked through Node.__add__"
+        nb = ";".join(f"{u}:" + ",".join(str(idx[id(x)]) for x in nodes[u].neighbors) for u in range(n))
+        tabs = ";".join(f"{u}:" + ",".join(f"{nid[t]}>{idx[id(r.direction)]}/{r.steps}" for t, r in sorted(nodes[u].routes.items(), key=lambda kv: nid[kv[0]]))
+                        for u in range(n))
+        conv = []
+        for s in range(n):
+            for g in sorted(set(names)):
+                goal = self.names[world][g]
+                st, p = bounded_walk(nodes[s], goal, n + 2)
+                if st != "ok":
+                    conv.append({"U": "UN"}.get(st, st))
+                    continue
+                steps = []
+                for i in range(len(p) - 1):
+                    a, b = p[i].name, p[i + 1].name
+                    d = resolvable(objs[s], a, b)
+                    if d is None:
+                        steps = f"UT:{idx[id(p[i])]}:{idx[id(p[i + 1])]}"
+                        break
+                    m = getattr(objs[s], f"{a}_to_{b}" if d == "d" else f"{b}_to_{a}")
+                    owner, fn = getattr(m, "__self__", None), getattr(m, "__func__", None)
+                    if fn is None or fn.__name__ != "_to_parent":
+                        o = "-"
+                    else:
+                        o = next((str(k) for k, x in enumerate(objs) if x is owner), "?")
+                    steps.append(f"{idx[id(p[i])]}>{idx[id(p[i + 1])]}:{d}:{o}")
+                conv.append(steps if isinstance(steps, str) else "ok=" + ",".join(steps))
+        return line, "N " + nb + " R " + tabs + " C " + ";".join(conv)
+
+
 def f2hex(x):
     return struct.pack("<d", float(x)).hex()
 
@@ -324,6 +474,7 @@ def run_scenario(ops, opts=None):
     np = w.np
     from beyond.frames import center as cmod, orient as omod
     max_pairs = opts.get("max_pairs", 40)
+    rec = Recorder(opts["builtin"]) if opts.get("builtin") else None
 
     def pairs_now():
         n = len(w.frames)
@@ -348,6 +499,7 @@ def run_scenario(ops, opts=None):
                 fails.append(dict(family=e.family, what=e.what, detail=e.detail))
                 break
             except Exception as e:  # noqa: BLE001
+                rec = rec.close() if rec is not None else None
                 fails.append(dict(family=f"registration-raises:{op['op']}", what="a registration through the public API raises",
                                   detail={"after": label, "error": repr(e)[:300], "tb": traceback.format_exc()[-600:]}))
                 break
@@ -355,6 +507,8 @@ def run_scenario(ops, opts=None):
             for x in (f if isinstance(f, list) else [f]):
                 if x is not None:
                     w.frames.append((f"{len(w.frames)}:{x.name}", x))
+        if rec is not None:
+            rec.after_op()
         fresh = op is not None and not (new_names & w.used)
         w.used |= new_names
         for nm_ in new_names:
@@ -374,7 +528,7 @@ def run_scenario(ops, opts=None):
         # value-level checks are restricted to unambiguous names)
         amb_c = {x for x in {u.name for u in cnodes} if sum(1 for u in cnodes if u.name == x) > 1}
         amb_o = {x for x in {u.name for u in onodes} if sum(1 for u in onodes if u.name == x) > 1}
-        pairs = pairs_now()
+        pairs = [] if opts.get("no_convert") else pairs_now()
         after = {}
         for i, j in pairs:
             a, b = w.frames[i][1], w.frames[j][1]
@@ -411,7 +565,12 @@ def run_scenario(ops, opts=None):
         before = after
         if len(fails) > 12:
             break
-    return {"fails": fails, "counts": counts}
+    tie = {}
+    if rec is not None:
+        rec.close()
+        for world in ("orient", "center"):
+            tie[world] = rec.request_and_reply(world)
+    return {"fails": fails, "counts": counts, "tie": tie}
 
 
 # ---------------------------------------------------------------- forked execution under bounds
